@@ -68,6 +68,8 @@ def run(ctx):
     snaps_seen = set()
     try:
         pinned(ctx, vh)
+        if os.environ.get("VERIF_ONLY_PINNED"):
+            return
         for i in range(n_ws):
             root = ctx.scratch(f"ws{i}")
             strict = i % 2 == 1
